@@ -4,6 +4,7 @@ import (
 	"bytes"
 	"encoding/json"
 	"fmt"
+	"strings"
 	"testing"
 
 	"github.com/dominant-strategies/go-quai/common"
@@ -115,7 +116,11 @@ func TestC14_Header(t *testing.T) {
 			}
 		}
 		tags := g.List()
-		stats.Case("header", g.Sig(), nontrivial(tags) || len(tags) > 0, tags...)
+		zm := zeroMask(h.QuaiStateSize(), h.UncledEntropy(), h.BaseFee(), h.ExchangeRate(), h.AvgTxFees(), h.TotalFees(), h.KQuaiDiscount(), h.ConversionFlowAmount(),
+			h.MinerDifficulty(), h.GasLimit(), h.GasUsed(), h.StateLimit(), h.StateUsed(), h.EfficiencyScore(), h.ThresholdCount(), h.ExpansionNumber(),
+			h.Number(0), h.Number(1), h.ParentEntropy(0), h.ParentEntropy(1), h.ParentEntropy(2))
+		// a header has no optional fields: non-trivial = some integer zero (empty on the wire) and some not, or max width
+		stats.Case("header", zm+"|"+g.Sig(), (strings.Contains(zm, "0") && strings.Contains(zm, "1")) || g.Has("maxwidth"), tags...)
 		if stats.WantSample("header") {
 			stats.Sample("header", map[string]any{"tags": tags, "proto": hx(b1), "hash": h0.Hex()})
 		}
@@ -268,7 +273,8 @@ func TestC14_WorkObjectHeader(t *testing.T) {
 			g.Add("hash:postfork_without_auxpow")
 		}
 		tags := g.List()
-		stats.Case("woheader", g.Sig(), nontrivial(tags), tags...)
+		zm := zeroMask(wh.Number(), wh.Difficulty(), wh.PrimeTerminusNumber(), wh.Time(), wh.Lock(), wh.NonceU64(), wh.Data(), wh.MixHash(), wh.HeaderHash())
+		stats.Case("woheader", zm+"|"+g.Sig(), nontrivial(tags), tags...)
 		if stats.WantSample("woheader") {
 			stats.Sample("woheader", map[string]any{"tags": tags, "proto": hx(b1), "hash": h0.Hex()})
 		}
@@ -279,8 +285,10 @@ func TestC14_AuxPow(t *testing.T) {
 	rapid.Check(t, func(t *rapid.T) {
 		c := newCtx(t, "auxpow")
 		g := &gen.Tags{}
+		auxShape := ""
 		if rapid.Bool().Draw(t, "template") {
 			at := gen.AuxTemplate(t, "at", g)
+			auxShape = fmt.Sprintf("t%d/%s/%d", at.PowID(), zeroMask(at.AuxPow2(), at.CoinbaseOut(), at.Sigs(), int(at.Version()), int(at.Height())), len(at.MerkleBranch()))
 			b1 := mustMarshal(c, at.ProtoEncode())
 			c.note("proto", hx(b1))
 			h0 := at.Hash()
@@ -321,6 +329,7 @@ func TestC14_AuxPow(t *testing.T) {
 			}
 		} else {
 			ap := gen.AuxPow(t, "ap", g)
+			auxShape = fmt.Sprintf("p/%s/%d/%v%v", zeroMask(ap.AuxPow2(), ap.Signature()), len(ap.MerkleBranch()), ap.AuxPow2() == nil, ap.Signature() == nil)
 			b1 := mustMarshal(c, ap.ProtoEncode())
 			c.note("proto", hx(b1))
 			p := new(types.ProtoAuxPow)
@@ -370,7 +379,7 @@ func TestC14_AuxPow(t *testing.T) {
 			}
 		}
 		tags := g.List()
-		stats.Case("auxpow", g.Sig(), true, tags...)
+		stats.Case("auxpow", g.Sig()+"|"+auxShape, true, tags...)
 	})
 }
 
